@@ -864,13 +864,22 @@ func (u *UserManager) GetNamespaceByUser(userName, password string) string {
 	return ""
 }
 
+// getUserKey builds the userNamespaces key. The user name is length-prefixed so that the key
+// can be split again unambiguously even if the user name or the password contains ':'.
 func getUserKey(username, password string) string {
-	return username + ":" + password
+	return strconv.Itoa(len(username)) + ":" + username + ":" + password
 }
 
 func getUserAndPasswordFromKey(key string) (username string, password string) {
-	strs := strings.Split(key, ":")
-	return strs[0], strs[1]
+	i := strings.IndexByte(key, ':')
+	if i < 0 {
+		return "", ""
+	}
+	n, err := strconv.Atoi(key[:i])
+	if err != nil || n < 0 || i+1+n >= len(key) {
+		return "", ""
+	}
+	return key[i+1 : i+1+n], key[i+2+n:]
 }
 
 const (
